@@ -42,7 +42,7 @@ ASSUMPTIONS = [
 	"schedules inside the OpenMP runtime cannot be steered; the poison hook "
 	"makes schedule-dependent stale reads deterministic instead",
 ]
-REQUIRED = {"trace_events": 200, "longer_to_shorter_transitions": 20,
+REQUIRED = {"many_query_calls": 1, "trace_events": 200, "longer_to_shorter_transitions": 20,
 	"poisoned_runs": 20, "executions_compared": 100, "nearest_rows_checked": 50,
 	"boundscheck_runs": 4}
 TECHNIQUE = ("runtime monitoring: bitwise differential vs single-query "
@@ -151,8 +151,54 @@ def run_tomtom(TT, Qs, Ts, kw, n_jobs, chunk=0):
 	return st, val
 
 
+def case_many(cls, params, rec):
+	"""One call with so many queries that their concatenated length passes
+	2**15 columns (and, thorough tier, 2**16); rows of queries taken from the
+	start, from around each boundary and from the end must equal - bit for
+	bit - the rows of the same queries processed in a call of their own."""
+	TT = tt()
+	r = gen.pyrng("C13many", params["cseed"])
+	nr = gen.nprng("C13many", params["cseed"])
+	Qs = [make_pwm(nr, r, r.randint(8, 12), "fine")
+		for _ in range(params["n_q"])]
+	Ts = [make_pwm(nr, r, r.randint(4, 16), "fine")
+		for _ in range(params["n_t"])]
+	kw = dict(n_score_bins=100, n_target_bins=None,
+		reverse_complement=params["rc"])
+	desc = {"n_queries": len(Qs), "total_query_columns": sum(q.shape[1]
+		for q in Qs), "n_targets": len(Ts), "rc": params["rc"]}
+	st, big = run_tomtom(TT, Qs, Ts, kw, params["n_jobs"])
+	if st == "raise":
+		rec.violation(cls, params, dict(desc, what="tomtom raised",
+			error=repr(big)[:300]), mech="C13/raised")
+		return
+	csum = numpy.cumsum([0] + [q.shape[1] for q in Qs])
+	groups = [list(range(0, 6)), list(range(len(Qs) - 6, len(Qs)))]
+	for edge in (2 ** 15, 2 ** 16):
+		if csum[-1] > edge:
+			i = int(numpy.searchsorted(csum, edge))
+			groups.append(list(range(max(0, i - 4), min(len(Qs), i + 4))))
+	groups.append(sorted(r.sample(range(len(Qs)), 6)))
+	for g in groups:
+		st, small = run_tomtom(TT, [Qs[i] for i in g], Ts, kw, 1)
+		if st == "raise" or not numpy.array_equal(big[:, g], small):
+			bad = [g[j] for j in range(len(g)) if st != "raise" and not
+				numpy.array_equal(big[:, g[j]], small[:, j])]
+			rec.violation(cls, params, dict(desc, what="rows of queries %s "
+				"differ between the large call and a call with only these "
+				"queries" % bad, first_column_of_query=int(csum[bad[0]])
+				if bad else None, error=repr(small)[:200] if st == "raise"
+				else None), mech="C13/co-query-dependence")
+			return
+	rec.count("many_query_calls")
+	rec.maxv("max_total_query_columns", float(csum[-1]))
+	rec.held(cls, params, nontrivial=True)
+
+
 def run_case(cls, params, rec):
 	import numba
+	if cls.startswith("many-queries"):
+		return case_many(cls, params, rec)
 	if cls.startswith("annotate"):
 		return case_annotate(cls, params, rec)
 	if cls.startswith("pyfunc-boundscheck"):
@@ -525,6 +571,9 @@ def plan(tier, seed):
 		units.append({"cls": "configs", "k0": k0, "k1": min(n, k0 + per),
 			"seed": seed, "weight": per, "env": env, "tier": tier,
 			"hashing": i % 3 == 1})
+	for j in range(1 if tier == "quick" else 4):
+		units.append({"cls": "many", "j": j, "seed": seed, "weight": 10,
+			"tier": tier, "env": {"NUMBA_NUM_THREADS": "4"}})
 	nb = 2 if tier == "quick" else 16
 	for j in range(nb):
 		units.append({"cls": "boundscheck", "k0": j * 6, "k1": j * 6 + 6,
@@ -535,6 +584,13 @@ def plan(tier, seed):
 
 def run_unit(unit, rec):
 	import numba
+	if unit["cls"] == "many":
+		r = gen.pyrng("C13manyp", unit["seed"], unit["j"])
+		run_case("many-queries", {"cseed": r.randrange(10 ** 9),
+			"n_q": 3400 + r.randint(0, 300) if unit["j"] % 2 == 0 else 6700,
+			"n_t": r.randint(2, 5), "rc": r.random() < .5,
+			"n_jobs": r.choice([1, 2, 4])}, rec)
+		return
 	if unit["cls"] == "boundscheck":
 		for k in range(unit["k0"], unit["k1"]):
 			params = gen_params(unit["seed"], 500000 + k)
